@@ -97,10 +97,12 @@ func (core *JApiCore) collectPathVariables(d *directive.Directive) *jerr.JApiErr
 
 	parentDirective := *d.Parent
 
-	if len(core.rawPathVariables) != 0 {
-		// The parents are compared by identity: the copies of one MACRO directive
-		// pasted in different places have the same coordinates.
-		if core.rawPathVariables[len(core.rawPathVariables)-1].pathDirective.Parent == d.Parent {
+	// The parents are compared by identity: the copies of one MACRO directive
+	// pasted in different places have the same coordinates. All the Path
+	// directives met so far are looked at: the Path of a method may stand between
+	// two Path directives of its URL.
+	for i := range core.rawPathVariables {
+		if !core.rawPathVariables[i].imitated && core.rawPathVariables[i].pathDirective.Parent == d.Parent {
 			return d.KeywordError(jerr.NotUniqueDirective)
 		}
 	}
